@@ -356,7 +356,37 @@ func checkC02(c *Ctx, r *Report) {
 	}
 	// C02.g the routes generator sees the route list validation accepted
 	ruleNoIRMutation(c, r, "C02.g")
+	checkContextPassThrough(c, r, "C02.g")
 
 	// the spec side normaliser (shared with C01.c)
 	ruleSlashCollapse(c, r, "C02.e", "common.RemoveDuplicateSlash", "the documented path collapses slash runs of any length")
+}
+
+// checkContextPassThrough: the template context hands the flattened metadata to the
+// templates as it is: no re-ordering, filtering or copying of controllers and routes
+// (mux and fiber dispatch to the first matching registration, so registration order is
+// behaviour; the spec generators iterate the same list).
+func checkContextPassThrough(c *Ctx, r *Report, clause string) {
+	w := c.W
+	const gtc = "generator/routes.GetTemplateContext"
+	fi := need(c, r, clause, gtc)
+	if fi == nil {
+		return
+	}
+	ctxT := w.lookupType("generator/routes", "RoutesContext")
+	viol := ""
+	var sites []string
+	for _, f := range []struct{ field, src string }{{"Controllers", "core/pipeline.GleeceFlattenedMetadata.Flat"}, {"Models", "core/pipeline.GleeceFlattenedMetadata.Models"}, {"Imports", "core/pipeline.GleeceFlattenedMetadata.Imports"}} {
+		sk := w.fieldSinks(fi, ctxT, f.field)
+		if len(sk) != 1 {
+			viol = fmt.Sprintf("expected one assignment of RoutesContext.%s, found %d", f.field, len(sk))
+			continue
+		}
+		sites = append(sites, w.pos(sk[0].Pos))
+		a := w.exprAtoms(fi, sk[0].Expr)
+		if !a.Fields[f.src] || len(a.Calls) > 0 {
+			viol = fmt.Sprintf("%s: RoutesContext.%s is not the pipeline's %s itself (%s): the routers would be generated from a re-ordered/filtered/copied list while the spec is generated from the original (route registration order decides dispatch on first-match routers)", w.pos(sk[0].Pos), f.field, f.src, a)
+		}
+	}
+	r.add(clause, "fieldflow", gtc+":pass-through", "the routes templates see exactly the controllers, models and imports the pipeline produced, in its order", []string{gtc}, sites, viol)
 }
